@@ -185,3 +185,22 @@ func verif_C01_render_TCP_mptcp() {
 	}
 	verifReached("render")
 }
+
+// RadioTap with the data-pad flag: the decoder removes two padding octets
+// after the 802.11 header of the payload.  The radiotap header is concrete
+// (version 0, length 9, present = flags only, flags = data pad), the 802.11
+// frame that follows is symbolic except for its frame control octets.
+func verif_C02_det_radiotap_datapad() {
+	n := 9 + 32
+	in := verifBytes("in", n)
+	copy(in, []byte{0, 0, 9, 0, 2, 0, 0, 0, 0x20, 0x88, 0}) // 0x88 0x00: QoS data frame, three addresses: 26-octet header
+	save := append([]byte(nil), in...)
+	verifInput(in)
+	verifBarrier(true)
+	opts := gopacket.DecodeOptions{NoCopy: true}
+	p1 := gopacket.NewPacket(in, LayerTypeRadioTap, opts)
+	p2 := gopacket.NewPacket(in, LayerTypeRadioTap, opts)
+	c02Same(p1, p2)
+	verifAssert(bytes.Equal(in, save), "the caller's input buffer is never written to")
+	verifReached("determinism")
+}
